@@ -1029,7 +1029,7 @@ def inv_ar_rule(ctx):
             est = ("item", call, 0)
         return est, ("item", call, 1) if call is not None else None
 
-    for d in (1, 2, 3, 4):
+    for d in (range(1, 13) if getattr(ctx, "tier", "quick") == "thorough" else (1, 2, 3, 4)):
         pe = PEval(mkobj(), shapes={x: (d,)})
         try:
             r = pe.call_method(inv.node, [Sym(x), Sym(cx)])
